@@ -412,3 +412,47 @@ def is_text(node, *expected):
 def contains_text(node, expected):
     """Is the (canonical) fragment a substring of the node's canonical text?"""
     return canon(expected) in unparse(node)
+
+
+def single_assignments(fn):
+    """Local names bound exactly once in the function by a plain `name = expr` (not a parameter, not augmented,
+    not a loop target, not bound inside a loop): these are temporaries that can be inlined."""
+    counts, value, in_loop = {}, {}, set()
+    ps = set(params(fn))
+    def rec(stmts, loop):
+        for st in stmts:
+            for n in assigned_names(st):
+                counts[n] = counts.get(n, 0) + 1
+                if loop:
+                    in_loop.add(n)
+            if isinstance(st, ast.Assign) and len(st.targets) == 1 and isinstance(st.targets[0], ast.Name):
+                value[st.targets[0].id] = st.value
+            if isinstance(st, (ast.FunctionDef, ast.AsyncFunctionDef, ast.ClassDef)):
+                continue
+            for field in ("body", "orelse", "finalbody"):
+                sub = getattr(st, field, None)
+                if isinstance(sub, list):
+                    rec(sub, loop or isinstance(st, (ast.For, ast.While)))
+            if isinstance(st, ast.Try):
+                for h in st.handlers:
+                    rec(h.body, loop)
+    rec(fn.body, False)
+    return {n: v for n, v in value.items() if counts.get(n) == 1 and n not in ps and n not in in_loop}
+
+
+def inline_locals(fn, node, depth=6):
+    """Copy of `node` with every single-assignment temporary replaced by its defining expression (recursively)."""
+    import copy
+    singles = single_assignments(fn)
+    class T(ast.NodeTransformer):
+        def __init__(self, d):
+            self.d = d
+        def visit_Name(self, n):
+            if isinstance(n.ctx, ast.Load) and n.id in singles and self.d > 0:
+                return T(self.d - 1).visit(copy.deepcopy(singles[n.id]))
+            return n
+    return T(depth).visit(copy.deepcopy(node))
+
+
+def inlined_text(fn, node):
+    return unparse(inline_locals(fn, node))
